@@ -769,6 +769,9 @@ class Sim(World):
             sock.eof = True
             mask = READ
         st0 = self.conn_objs[i][cid].state
+        c0 = self.conn_objs[i][cid]
+        if c0._TcpConnection__readBuffer and c0._TcpConnection__onConnected is not None:
+            self.cov["connerr.mid-frame-on-dialled-object"] += 1   # a torn frame on an object that will be re-used
         before = len(self.fabric.socks)
         r, out = self.call(i, lambda: self.sobjs[i]._poller.fire(sock.fd, mask),
                            imm_fail=[self._peer_index(sock)] if imm_fail and self._peer_index(sock) is not None else ())
